@@ -95,6 +95,11 @@ def run_case(desc):
         for o in G.OPTION_SETS:
             rows.append(x.format(**o))
         obs["subjects"].append({"what": name, "lines": rows, "str": str(x)})
+    # no hidden state: format() again on the same object after summaries / an abandoned summary iterator
+    log = []
+    with G.history(st, [["flags"], ["abandon", 1]], log):
+        again = [[x.format(**o) for o in G.OPTION_SETS] for _, x in _subjects(None, st)]
+    obs["again_equal"] = again == [sub["lines"] for sub in obs["subjects"]]
     return obs
 
 
@@ -116,6 +121,8 @@ def coq_case(desc, obs):
 
 
 def direct_oracle(desc, obs):
+    if not obs["again_equal"]:
+        return "format() of one object changed after summary calls / an abandoned summary iterator on it (hidden state)"
     for sub in obs["subjects"]:
         for o, lines in zip(G.OPTION_SETS, sub["lines"]):
             for l in lines:
